@@ -8,7 +8,15 @@ import (
 )
 
 func vDocText() []byte {
-	fam := zzverif.IntRange("family", 0, 1)
+	fam := zzverif.IntRange("family", 0, 2)
+	if fam == 2 {
+		// single-byte mutation: a corpus text with ONE byte, at any position,
+		// replaced by an arbitrary byte
+		doc := []byte(vCorpus[zzverif.IntRange("doc", 0, len(vCorpus)-1)])
+		zzverif.Assume(len(doc) > 0)
+		doc[zzverif.IntRange("at", 0, len(doc)-1)] = zzverif.Byte("byte")
+		return doc
+	}
 	if fam == 0 {
 		n := zzverif.IntRange("len", 0, zzverif.Bound("N", 4, 6))
 		return zzverif.Bytes("text", n)
